@@ -154,6 +154,23 @@ def _contains(root: ast.AST, target: ast.AST) -> bool:
 REGISTRY_NAMES = ("NODE_REGISTRY", "_nodes", "_sources", "_source_idx_to_source", "TYPES")
 
 
+EFFECT_FREE_RECEIVERS = ("logger", "logging", "log", "warnings")
+
+
+def _may_mutate(c: ast.Call) -> bool:
+    """Could this call change program state that an expression reads?  Pure builtins / methods, logging and
+    constructor calls (Capitalised callee; registry effects are handled separately) are taken not to."""
+    name = dotted(c.func) or ""
+    if name in PURE_FUNCS or (isinstance(c.func, ast.Attribute) and c.func.attr in PURE_METHODS):
+        return False
+    if name.split(".")[0] in EFFECT_FREE_RECEIVERS:
+        return False
+    last = name.split(".")[-1]
+    if last[:1].isupper() and not last.isupper():
+        return False
+    return True
+
+
 def _clobbers(stmts: list[ast.stmt], rhs: ast.expr) -> bool:
     """May any of the statements change what ``rhs`` reads?"""
     rtxt = norm(rhs)
@@ -161,6 +178,8 @@ def _clobbers(stmts: list[ast.stmt], rhs: ast.expr) -> bool:
     read_names = {n.id for n in ast.walk(rhs) if isinstance(n, ast.Name)}
     attr_bases = {norm(n.value) for n in ast.walk(rhs) if isinstance(n, (ast.Attribute, ast.Subscript))}
     getattr_bases = {norm(n.args[0]) for n in ast.walk(rhs) if isinstance(n, ast.Call) and dotted(n.func) in ("getattr", "hasattr") and n.args}
+    # anything read through an object (attribute, item, call result) may be changed by a call of unknown effect
+    reads_heap = bool(attr_bases or getattr_bases) or any(isinstance(n, ast.Call) for n in ast.walk(rhs))
     for st in stmts:
         for n in ast.walk(st):
             if isinstance(n, ast.Name) and isinstance(n.ctx, (ast.Store, ast.Del)) and n.id in read_names:
@@ -177,6 +196,13 @@ def _clobbers(stmts: list[ast.stmt], rhs: ast.expr) -> bool:
                     return True
                 if reads_registry and not is_pure_expr(n):
                     return True
+                if reads_heap and _may_mutate(n):
+                    # a call reaches (and may change) only what its receiver and arguments lead to; module-level
+                    # registries are covered above
+                    reach = {x.id for part in ([n.func.value] if isinstance(n.func, ast.Attribute) else []) + list(n.args) + [k.value for k in n.keywords]
+                             for x in ast.walk(part) if isinstance(x, ast.Name)}
+                    if reach & read_names:
+                        return True
                 if isinstance(n.func, ast.Attribute) and n.func.attr in ("append", "extend", "pop", "popleft", "appendleft", "update", "clear", "add",
                                                                            "remove", "insert", "reverse", "sort", "setdefault", "discard") \
                         and (norm(n.func.value) in read_names or norm(n.func.value) in attr_bases):
@@ -246,6 +272,82 @@ def inline_locals(fn: ast.FunctionDef, keep: set[str] | None = None) -> ast.Func
     return fn
 
 
+def _is_value_expr(e: ast.expr) -> bool:
+    """Pure expressions, also through constructor calls (Capitalised callee): the value that flows, not a re-evaluation."""
+    for n in ast.walk(e):
+        if isinstance(n, ast.Call):
+            name = dotted(n.func)
+            if name in PURE_FUNCS or (isinstance(n.func, ast.Attribute) and n.func.attr in PURE_METHODS):
+                continue
+            last = (name or "").split(".")[-1]
+            if last[:1].isupper() and not last.isupper():
+                continue
+            return False
+        if isinstance(n, (ast.Await, ast.Yield, ast.YieldFrom, ast.NamedExpr, ast.Lambda)):
+            return False
+    return True
+
+
+class PathEnv:
+    """Path-local definitions of pure locals (see resolve_path)."""
+
+    def __init__(self, allow_calls: bool = False) -> None:
+        self.env: dict[str, ast.expr] = {}
+        self.allow_calls = allow_calls
+
+    def copy(self) -> "PathEnv":
+        p = PathEnv(self.allow_calls)
+        p.env = dict(self.env)
+        return p
+
+    def apply(self, node: ast.AST) -> ast.AST:
+        n2 = copy.deepcopy(node)
+        if self.env:
+            if isinstance(node, (ast.For, ast.While, ast.With, ast.Try, ast.If)):
+                stored = {x.id for x in ast.walk(node) if isinstance(x, ast.Name) and isinstance(x.ctx, (ast.Store, ast.Del))}
+                n2 = _Subst({k: v for k, v in self.env.items() if k not in stored}).visit(n2)
+            else:
+                n2 = _Subst(self.env).visit(n2)
+        return ast.fix_missing_locations(n2)
+
+    def _ok_value(self, val: ast.expr) -> bool:
+        if _is_value_expr(val):
+            return True
+        return self.allow_calls and not any(isinstance(x, (ast.Await, ast.Yield, ast.YieldFrom, ast.NamedExpr)) for x in ast.walk(val))
+
+    def update(self, st2: ast.stmt) -> None:
+        """``st2``: the statement after substitution."""
+        for name in list(self.env):
+            if _clobbers([st2], self.env[name]):
+                self.env.pop(name)
+        tgt = val = None
+        if isinstance(st2, ast.Assign) and len(st2.targets) == 1 and isinstance(st2.targets[0], ast.Name):
+            tgt, val = st2.targets[0].id, st2.value
+        elif isinstance(st2, ast.AnnAssign) and isinstance(st2.target, ast.Name) and st2.value is not None:
+            tgt, val = st2.target.id, st2.value
+        for n in ast.walk(st2):
+            if isinstance(n, ast.Name) and isinstance(n.ctx, (ast.Store, ast.Del)):
+                self.env.pop(n.id, None)
+                for k in [k for k, v in self.env.items() if any(isinstance(x, ast.Name) and x.id == n.id for x in ast.walk(v))]:
+                    self.env.pop(k)
+        if tgt is not None and self._ok_value(val) and not (_is_container_ctor(val) and _is_empty_container(val)) \
+                and not any(isinstance(x, ast.Name) and x.id == tgt for x in ast.walk(val)):
+            self.env[tgt] = val
+
+
+def resolve_path(stmts: list[ast.stmt], allow_calls: bool = False) -> list[ast.stmt]:
+    """Path-wise substitution over a straight-line statement list (the executed statements of one decision-tree leaf):
+    a pure local is replaced by its definition in later statements as long as nothing in between clobbers what the
+    definition reads.  Returns copies; definitions of substituted locals are kept in the output."""
+    pe = PathEnv(allow_calls)
+    out: list[ast.stmt] = []
+    for st in stmts:
+        st2 = pe.apply(st)
+        pe.update(st2)  # type: ignore[arg-type]
+        out.append(st2)  # type: ignore[arg-type]
+    return out
+
+
 MUTATORS = {"append", "appendleft", "extend", "extendleft", "insert", "pop", "popleft", "popitem", "remove", "clear", "update", "add", "discard",
             "sort", "reverse", "setdefault"}
 
@@ -292,6 +394,10 @@ def _only_later_clobbers(stmts: list[ast.stmt], rhs: ast.expr, uses: list[ast.AS
             use_pos = max(((u.lineno, u.col_offset) for u in uses if _contains(s, u)), default=None)
             if use_pos is None:
                 return False
+            if isinstance(s, (ast.Assign, ast.AugAssign, ast.AnnAssign)) and getattr(s, "value", None) is not None \
+                    and not _clobbers([ast.Expr(value=s.value)], rhs) \
+                    and all(_contains(s.value, u) for u in uses if _contains(s, u)) and not isinstance(s, ast.AugAssign):
+                continue  # the right-hand side is evaluated before the store that clobbers
             clob_pos = _first_clobber_pos(s, rhs)
             if clob_pos is None or clob_pos <= use_pos:
                 return False
@@ -521,6 +627,15 @@ class HelperInliner:
                     return node
                 callee, implicit, q = r
                 body = [s for s in callee.body if not (isinstance(s, ast.Expr) and isinstance(s.value, ast.Constant))]
+                if len(body) > 1 and isinstance(body[-1], ast.Return):
+                    # pure single-assignment locals of the helper collapse into its return expression
+                    try:
+                        cal2 = copy.deepcopy(callee)
+                        cal2 = lower(cal2, tuples=True, ifexp=False)
+                        cal2 = inline_locals(cal2)
+                        body = [s for s in cal2.body if not (isinstance(s, ast.Expr) and isinstance(s.value, ast.Constant)) and not isinstance(s, ast.Pass)]
+                    except RecursionError:
+                        pass
                 if len(body) == 1 and isinstance(body[0], ast.Return) and body[0].value is not None:
                     b = outer._bind(callee, implicit, node)
                     if b is not None and all(is_pure_expr(x) for x in b[0].values()):
@@ -540,6 +655,32 @@ class HelperInliner:
             return
         else:
             T().visit(st)
+
+
+def _leading_walrus(e: ast.expr) -> ast.NamedExpr | None:
+    """The assignment expression that is evaluated first (unconditionally) in ``e``, if any."""
+    if isinstance(e, ast.NamedExpr) and isinstance(e.target, ast.Name):
+        return e
+    if isinstance(e, ast.Compare):
+        return _leading_walrus(e.left)
+    if isinstance(e, ast.UnaryOp):
+        return _leading_walrus(e.operand)
+    if isinstance(e, ast.BoolOp):
+        return _leading_walrus(e.values[0])
+    return None
+
+
+def _replace_node(root: ast.expr, old: ast.AST, new: ast.expr) -> ast.expr:
+    if root is old:
+        return new
+
+    class R(ast.NodeTransformer):
+        def visit(self, node: ast.AST) -> ast.AST:
+            if node is old:
+                return new
+            return super().visit(node)
+
+    return R().visit(root)
 
 
 def lower(fn: ast.FunctionDef, tuples: bool = True, ifexp: bool = True) -> ast.FunctionDef:
@@ -565,6 +706,17 @@ def lower(fn: ast.FunctionDef, tuples: bool = True, ifexp: bool = True) -> ast.F
                 reads = {n.id for v in st.value.elts for n in ast.walk(v) if isinstance(n, ast.Name)}
                 if not (names & reads):
                     new = [ast.copy_location(ast.Assign(targets=[t], value=v), st) for t, v in zip(st.targets[0].elts, st.value.elts)]
+            elif tuples and isinstance(st, ast.If) and _leading_walrus(st.test) is not None:
+                w = _leading_walrus(st.test)
+                pre = ast.copy_location(ast.Assign(targets=[ast.Name(id=w.target.id, ctx=ast.Store())], value=w.value), st)
+                st.test = _replace_node(st.test, w, ast.copy_location(ast.Name(id=w.target.id, ctx=ast.Load()), w))
+                new = [pre, st]
+            elif tuples and isinstance(st, ast.While) and not st.orelse and _leading_walrus(st.test) is not None:
+                w = _leading_walrus(st.test)
+                pre = ast.copy_location(ast.Assign(targets=[ast.Name(id=w.target.id, ctx=ast.Store())], value=w.value), st)
+                t2 = _replace_node(st.test, w, ast.copy_location(ast.Name(id=w.target.id, ctx=ast.Load()), w))
+                brk = ast.copy_location(ast.If(test=ast.UnaryOp(op=ast.Not(), operand=t2), body=[ast.copy_location(ast.Break(), st)], orelse=[]), st)
+                new = [ast.copy_location(ast.While(test=ast.Constant(value=True), body=[pre, brk] + st.body, orelse=[]), st)]
             elif isinstance(st, (ast.Assign, ast.AnnAssign)) and isinstance(st.value, ast.IfExp):
                 def mk(v: ast.expr) -> ast.stmt:
                     c = copy.copy(st)
